@@ -137,6 +137,14 @@ Theorem C17_config_name_wins :
 Proof. exact object_name_wins. Qed.
 Print Assumptions C17_config_name_wins.
 
+(* "else the one named in the ... environment": parser.parse_env(mapping) whose mapping names a declared
+   subcommand stores it, whatever else the mapping holds and whatever os.environ holds (every variant) *)
+Theorem C17_environment_name_wins :
+  forall fx fuel os p m n cfg, wf p -> p_has p = true -> named_in (p_dest p) m = Some n -> In n (p_names p) ->
+    parse fx fuel p {| i_env := os; i_entry := EEnv m |} = Ok cfg -> get (p_dest p) cfg = Some (NStr n).
+Proof. exact env_name_wins. Qed.
+Print Assumptions C17_environment_name_wins.
+
 (* both hypotheses are satisfiable: the command line names a although the --cfg value names b; the
    object names b although settings are given for a (declared first) *)
 Example C17_name_wins_satisfiable :
